@@ -73,6 +73,12 @@ __CPROVER_ensures(RET == AWS_OP_SUCCESS ==> (*encoded_len & 3) == 0 &&
                   (__uint128_t)3 * (*encoded_len >> 2) < (__uint128_t)to_encode_len + 3)
 /* the same value in the form callers use */
 __CPROVER_ensures(RET == AWS_OP_SUCCESS ==> *encoded_len == B64_ENC_LEN(to_encode_len))
+/* lemmas for callers (proved here once, so that a caller's proof needs no reasoning about dividers): the number of
+ * quanta, and the size of the final quantum expressed through the result */
+__CPROVER_ensures(RET == AWS_OP_SUCCESS ==> (*encoded_len >> 2) == (to_encode_len + 2) / 3)
+__CPROVER_ensures(RET == AWS_OP_SUCCESS ==> (to_encode_len % 3 == 0) == ((__uint128_t)3 * (*encoded_len >> 2) == (__uint128_t)to_encode_len))
+__CPROVER_ensures(RET == AWS_OP_SUCCESS ==> (to_encode_len % 3 == 1) == ((__uint128_t)3 * (*encoded_len >> 2) == (__uint128_t)to_encode_len + 2))
+__CPROVER_ensures(RET == AWS_OP_SUCCESS ==> (to_encode_len % 3 == 2) == ((__uint128_t)3 * (*encoded_len >> 2) == (__uint128_t)to_encode_len + 1))
 ;
 
 /* number of '=' at the end of a text whose length is a positive multiple of 4 */
